@@ -108,6 +108,11 @@ def analyse_function(qual, cls, fn):
             if isinstance(t, ast.Name):
                 assigns.setdefault(t.id, []).append(v)
             elif isinstance(t, (ast.Tuple, ast.List)):
+                if isinstance(v, (ast.Tuple, ast.List)) and len(v.elts) == len(t.elts) and \
+                        all(isinstance(e, ast.Name) for e in t.elts):
+                    for e, ve in zip(t.elts, v.elts):       # a, b = x, y  pairs up element-wise
+                        assigns.setdefault(e.id, []).append(ve)
+                    continue
                 for e in ast.walk(t):
                     if isinstance(e, ast.Name):
                         assigns.setdefault(e.id, []).append(None)
